@@ -31,7 +31,7 @@ package termincommittee
 //@ pred Signed(tic *TermInCommittee, hdr *protocol.BlockRef, snd *protocol.SenderSignature) = VerifiedMsg(tic.keyManager, hdr.BlockHeight(), hdr.Raw(), snd.MemberId(), snd.Signature())
 //@ pred TicOK(tic *TermInCommittee) = tic.State != nil && tic.messageFactory != nil && len(tic.committeeMembers) >= 4 && tic.storage != nil && tic.keyManager != nil && tic.blockUtils != nil && tic.electionTrigger != nil
 //@   | && SumMW(tic.committeeMembers, len(tic.committeeMembers)) < 2^64
-//@   | && tic.messageFactory.memberId == tic.myMemberId && tic.messageFactory.keyManager == tic.keyManager
+//@   | && tic.messageFactory.memberId == tic.myMemberId && tic.messageFactory.keyManager == tic.keyManager && SignsAs(tic.keyManager, tic.myMemberId)
 //@   | && IsMember(tic.committeeMembers, tic.myMemberId)
 
 // ghost send-log / proposal-log consistency (C10 Inv_tic clause 4) and "one commit per term" (C13)
@@ -44,6 +44,8 @@ package termincommittee
 //@   | && (ncommitted == 0 ==> lastVC <= tic.State.view)
 //@   | && (ncommitted == 0 ==> lastCommitHeight < tic.State.height)
 //@   | && (ncommitted == 0 && tic.preparedLocally != nil && tic.preparedLocally.isPreparedLocally ==> tic.preparedLocally.latestView <= tic.State.view)
+//@   | && (ncommitted == 0 && tic.preparedLocally != nil && tic.preparedLocally.isPreparedLocally ==> ppStored[tic.preparedLocally.latestView]
+//@   |     && len(PIds(tic.storage, pver, tic.State.height, tic.preparedLocally.latestView, ppHash[tic.preparedLocally.latestView])) >= 1)
 
 // the lock (prepared certificate) is never dropped or moved back within a term (C09)
 //@ pred LockKept(tic *TermInCommittee, before *preparedLocallyProps, wasPrepared bool, oldView primitives.View) = before != nil && wasPrepared ==>
@@ -70,6 +72,8 @@ package termincommittee
 //@   requires [O8.2.not-stale] pp.content.SignedHeader().View() >= caller.State.view
 //@   modifies ghost:pver
 //@   ensures pver == old(pver) + 1
+//@   ensures [A-STORE.stored-sender-is-listed] len(PIds(self, pver, pp.content.SignedHeader().BlockHeight(), pp.content.SignedHeader().View(), pp.content.SignedHeader().BlockHash())) >= 1
+//@   ensures [A-STORE.log-only-grows] forall qh int, qv int, qx Str :: len(PIds(self, pver, qh, qv, qx)) >= len(PIds(self, old(pver), qh, qv, qx))
 
 //@ iface interfaces.Storage.StoreCommit
 //@   requires [O8.3.verified] cm != nil && cm.content != nil && Signed(caller, cm.content.SignedHeader(), cm.content.Sender())
@@ -118,6 +122,8 @@ package termincommittee
 
 //@ iface interfaces.Storage.GetPrepareMessages
 //@   ensures result0 == PMsgs(self, pver, blockHeight, view, blockHash)
+//@   ensures result1 ==> len(result0) == len(PIds(self, pver, blockHeight, view, blockHash))
+//@   ensures forall i :: 0 <= i && i < len(result0) ==> result0[i] != nil && result0[i].content != nil
 //@   ensures forall i :: 0 <= i && i < len(result0) ==> PrepareOK(caller, result0[i]) && result0[i].content.SignedHeader().BlockHeight() == blockHeight
 //@     | && result0[i].content.SignedHeader().View() == view && result0[i].content.SignedHeader().BlockHash() == blockHash
 
@@ -203,6 +209,7 @@ package termincommittee
 
 //@ func (*TermInCommittee).checkPreparedLocally
 //@   requires [term-not-yet-committed] ncommitted == 0
+//@   requires [O12.the-counted-hash-has-a-stored-prepare] len(PIds(tic.storage, pver, blockHeight, view, blockHash)) >= 1
 //@   requires [counted-only-from-current-view-on] view >= tic.State.view
 //@   ensures [O9.lock-kept] LockKept(tic, old(tic.preparedLocally), old(tic.preparedLocally.isPreparedLocally), old(tic.preparedLocally.latestView))
 //@   inv GhostInv(tic)
@@ -478,10 +485,7 @@ package termincommittee
 //@     | && SW(ids, tic.committeeMembers, len(tic.committeeMembers)) >= Qz(SumMW(tic.committeeMembers, len(tic.committeeMembers)))
 //@   modifies @TIC
 
-// field-by-field re-encoding of the votes (verified under C20); here only: one confirmation per vote
-//@ dep interfaces.ExtractConfirmationsFromViewChangeMessages
-//@   params vcms
-//@   ensures len(result) == len(vcms)
+// field-by-field re-encoding of the votes: contract in services/interfaces (verified under C20)
 
 // ---------------- election by timeout, term start (C09 C10 C14 C19) ----------------
 
